@@ -31,7 +31,7 @@ RULE = ('continuous objects: pardim 1-3, rational or not, bases open (clamped) o
         'multiplicities 1..p-1, orders 1..5; raise amounts 0..3 per direction as full tuples, single amounts, single amount + '
         'direction=, set_order targets; negative amounts / lowering set_order / bad direction (ValueError); lower_order by the '
         'same amounts on every elevated object; BSplineBasis.raise_order/lower_order directly.  non-trivial = some amount > 0.')
-REQUIRED_TAGS = ['pardim=1', 'pardim=2', 'pardim=3', 'rational', 'periodic-dir', 'open-only', 'form=raise', 'form=set',
+REQUIRED_TAGS = ['model-exact-map=exact-same', 'model-exact-lower=exact-same', 'pardim=1', 'pardim=2', 'pardim=3', 'rational', 'periodic-dir', 'open-only', 'form=raise', 'form=set',
                  'form=base', 'args=single', 'args=direction', 'args=tuple', 'all-zero', 'negative', 'set-lowering',
                  'amount=3', 'kind=basis', 'lower=ok', 'interior-mult>=2', 'ret=none', 'ret=self']
 ASSUMPTIONS = ['np.linalg.inv / scipy spsolve are modelled by exact inverses (certificate-checked in the model); their '
@@ -44,7 +44,7 @@ ASSUMPTIONS = ['np.linalg.inv / scipy spsolve are modelled by exact inverses (ce
 def _cont_basis(rng, pmax, max_interior, periodic_prob, wide=False, p=None):
     """Basis of a continuous object: interior multiplicity <= p-1 (p = 1: a single span)."""
     if p is None:
-        p = rng.choice([1] + list(range(2, pmax + 1)) * 6)
+        p = rng.choice([1] + list(range(2, pmax + 1)) * 10)
     if p == 1:
         return gen.open_basis(rng, 1, n_interior=0, wide=wide)
     ni = rng.randint(0, max_interior)
@@ -71,7 +71,7 @@ def _orders(o):
 def generate(rng, tier):
     specs = []
     quick = tier == 'quick'
-    nobj = 150 if quick else 1500
+    nobj = 400 if quick else 3000
     for oi in range(nobj):
         pardim = [1, 2, 1, 2, 3][oi % 5]
         pmax = {1: 5, 2: 4, 3: 3}[pardim]
@@ -156,12 +156,34 @@ def _is_curve(s):
     return len(s['obj']['bases']) == 1
 
 
+EXACT_GRID_MAX = 260
+
+
+def _exact_params(s):
+    """Grid for the model's exact (rational arithmetic) before/after comparison: q = new order
+    points strictly inside every knot span per direction decide equality of the polynomial pieces of
+    the homogeneous maps.  [] = skipped (illegal call, or grid too large for the quick model run)."""
+    am = _norm_amounts(s)
+    if am is None or not any(am):
+        return []
+    params = []
+    total = 1
+    for b, a in zip(s['obj']['bases'], am):
+        info = gen.basis_info(b)
+        ks = [x for x in gen.distinct_knots(b) if info['start'] <= x <= info['end']]
+        q = b['order'] + a
+        pts = [x + (y - x) * j / (q + 1) for x, y in zip(ks[:-1], ks[1:]) for j in range(1, q + 1)]
+        params.append(pts)
+        total *= len(pts)
+    return params if total <= EXACT_GRID_MAX else []
+
+
 def model_line(s):
     if s['kind'] == 'basis':
         return line('c05_basis', gen.enc_basis(s['basis']), gen.TOL, s['amount'],
                     Word('none') if s['lower'] is None else s['lower'])
     return line('c05_obj', gen.enc_object(s['obj']), gen.TOL, _is_curve(s), Word(s['form']), s['amounts'],
-                Word('none') if s['direction'] is None else s['direction'], s['lowers'])
+                Word('none') if s['direction'] is None else s['direction'], s['lowers'], _exact_params(s))
 
 
 def _cont_table(b):
@@ -242,6 +264,13 @@ def run_impl(sp, s):
     return {'v': out, 'cond': cond1, 'cond_lower': cond1 * cond2}
 
 
+def _undoes(s):
+    am = _norm_amounts(s)
+    pd = len(s['obj']['bases'])
+    lows = s['lowers'] * pd if len(s['lowers']) == 1 else s['lowers']
+    return am is not None and lows == am
+
+
 def _cmp_obj(iv, mv, rtol, path):
     """[bases, shape, flat, rational]: everything exact except the control points."""
     if not isinstance(mv, list) or len(mv) != 4 or not isinstance(iv, list):
@@ -259,8 +288,13 @@ def compare(s, iv, mv):
     v = iv['v']
     if s['kind'] == 'basis':
         return diff(v, mv, 0.0, 0.0)
-    if is_err(mv) or not isinstance(mv, list) or len(mv) != 4:
+    if is_err(mv) or not isinstance(mv, list) or len(mv) != 5:
         return diff(v, mv, 0.0, 0.0)
+    # the model's own exact check of the hypothesis H_incl / of the left-inverse claim
+    if mv[4] not in ('skip', 'exact-same'):
+        return '$.exact: the model (exact rationals) finds the elevated map %s' % mv[4]
+    if isinstance(mv[3], list) and len(mv[3]) == 4 and mv[3][3] not in ('skip', 'exact-same') and _undoes(s):
+        return '$.lower.exact: in the model lower_order(raise_order(obj)) has control points that are %s' % mv[3][3]
     d = diff(v[0], mv[0], 0, 0, path='$.ret')
     d = d or _cmp_obj(v[1], mv[1], RTOL * iv['cond'], '$.after')
     d = d or diff(v[2], mv[2], 0, 0, path='$.continuity')
@@ -566,6 +600,11 @@ def tags(s, res):
         out.append('cond<1e2' if c < 1e2 else 'cond<1e4' if c < 1e4 else 'cond>=1e4')
     elif isinstance(iv, Err):
         out.append('raises=' + iv.kind)
+    mv = res.get('model') if res else None
+    if isinstance(mv, list) and len(mv) == 5:
+        out.append('model-exact-map=' + str(mv[4]))
+        if isinstance(mv[3], list) and len(mv[3]) == 4:
+            out.append('model-exact-lower=' + str(mv[3][3]))
     return out
 
 
